@@ -478,9 +478,9 @@ class Sums:
             if srt == cbody.sort() and np_ == len(params) and b.eq(cbody):
                 f = fn
                 break
-        if f is None and not params:
+        if f is None:
             for (b, fn, srt, np_) in self.entries:
-                if srt == cbody.sort() and np_ == 0:
+                if srt == cbody.sort() and np_ == len(params):
                     s = z3.Solver()
                     s.set('timeout', 500)
                     if ctx:
@@ -923,6 +923,16 @@ class Compress:
             if e[2] == len(params) and e[0].eq(cbody) and e[1].eq(cn):
                 ent = e
                 break
+        if ent is None:
+            # semantic unification: same mask up to logical equivalence (e.g. a >= b  vs  b <= a)
+            for e in self.entries:
+                if e[2] == len(params) and e[1].eq(cn):
+                    sv = z3.Solver()
+                    sv.set('timeout', 500)
+                    sv.add(e[0] != cbody)
+                    if sv.check() == z3.unsat:
+                        ent = e
+                        break
         if ent is None:
             k = len(self.entries)
             ints = [z3.IntSort()] * len(params)
